@@ -1,6 +1,18 @@
+def classify_crash(cr):
+    """Attribute a crash of a harness case to a library call site.  The harness prints `#in <solver> <rep> S A O h` before every library
+    call (check.py keeps the last one as 'context').  The only crash known: Projecter's constructor on a model without Eigen accessors
+    returns a transposed view of a temporary (fixes/C02-3), which ASan reports as stack-use-after-scope in computeImmediateRewards."""
+    ctx = (cr.get('context') or [''])[-1].split()
+    solver = ctx[1] if len(ctx) > 2 else 'C02'
+    rep = ctx[2] if len(ctx) > 2 else ''
+    if cr.get('kind') == 'crash' and 'stack-use-after-scope' in cr.get('detail', '') and 'computeImmediateRewards' in cr.get('stderr_tail', '') and rep == 'generic':
+        return ('Projecter', 'generic_model_use_after_scope')
+    return (solver if solver in ('IncrementalPruning', 'Witness', 'LinearSupport', 'RTBSS') else 'C02', cr['kind'])
+
+
 SPEC = {
     'id': 'C02',
-    'lean_modules': ['AITB.Props.C02', 'AITB.Props.C02b'],
+    'lean_modules': ['AITB.Props.C02', 'AITB.Props.C02b', 'AITB.Props.C02c'],
     'theorems': [
         'AITB.POMDP.sum_max_eq_max_choice',
         'AITB.POMDP.envelope_crossSum',
@@ -57,13 +69,32 @@ SPEC = {
         'AITB.POMDP.lsScan_spec',
         'AITB.POMDP.ls_sound',
         'AITB.POMDP.ls_break_tested',
+        # round 3 (AITB.Props.C02c)
+        'AITB.POMDP.domBy_sound',
+        'AITB.POMDP.coverStep_sound',
+        'AITB.POMDP.checkExactChain_sound',
+        'AITB.POMDP.checkExactChain_sound_from_zero',
+        'AITB.POMDP.wbd_close',
+        'AITB.POMDP.wbd_sound',
+        'AITB.POMDP.outerGo_length_le',
+        'AITB.POMDP.outerGo_exact',
+        'AITB.POMDP.outerGo_noTol',
+        'AITB.POMDP.outerGo_variation',
+        'AITB.POMDP.outerGo_early_stop',
+        'AITB.POMDP.outerGo_stops_at_tol',
+        'AITB.POMDP.solver_loop_exact',
+        'AITB.POMDP.solver_loop_tol0_horizon',
+        'AITB.POMDP.solveOuter_h0',
+        'AITB.POMDP.lsAccept_false_bound',
+        'AITB.POMDP.wReserve_room',
     ],
-    'gen_obligations': ['AITB.POMDP.rtbss_as_extracted_full', 'AITB.POMDP.rtbss_as_extracted', 'AITB.POMDP.fvn_as_extracted', 'AITB.POMDP.sites_match_model'],
+    'gen_obligations': ['AITB.POMDP.sites3_match_model', 'AITB.POMDP.rtbss_as_extracted_full', 'AITB.POMDP.rtbss_as_extracted', 'AITB.POMDP.fvn_as_extracted', 'AITB.POMDP.sites_match_model'],
     'harness': 'harness/c02.cpp',
     'level': 'proof',
     'timeout': {'quick': 600, 'thorough': 3000},
-    'case_timeout': 120,
+    'case_timeout': 90,
     'crash_component': 'C02',
+    'classify_crash': classify_crash,
     'rule': 'hand-written instances first (Tiger; an instance with an impossible observation + duplicate + dominated action; all-negative-reward '
             'instances for RTBSS incl. the Lean counterexample; the LinearSupport edge-vertex witness), then seeded random POMDPs (S 1..4, A 1..3, O 1..3, '
             'h 1..3 (4 thorough); deterministic, noisy and partly impossible observations; duplicate, dominated, state-matched and tied rewards; a non-dyadic '
